@@ -107,7 +107,7 @@ theorem statusFromError_ghost (mem : OSet) (reason : String) {s s' : Sys} (h : G
 /-- resetting the collected remote phase references. -/
 theorem clearRefs_ghost {w w' : World} (h : GhostEq w w') :
     GhostEq { w with remoteRefs := [] } { w' with remoteRefs := [] } :=
-  ⟨h.store, h.writes, h.env, h.events, h.phases, h.phaseEvents, rfl, h.applied⟩
+  ⟨h.store, h.writes, h.env, h.events, h.phases, h.phaseEvents, rfl, h.applied, h.watched⟩
 
 theorem foldl_sync_ghost (rm : Remotes) (hrm : RespectsGhost rm) (mem : OSet) :
     ∀ (phs : List PhaseSpec) {w w' : World}, GhostEq w w' →
@@ -194,7 +194,7 @@ theorem deletionOrArchival_ghost (cfg : Cfg) (rm : Remotes) (hrm : RespectsGhost
     exact ite_ghost _ (RelS.mk' h2 _) (afterStatus_ghost (updateStatus_ghost _ h2) _)
   | done =>
     simp only
-    obtain ⟨t, t', r, e3, e4, h3⟩ := (setFinalizer_ghost mem false (withFreed_ghost h2 mem.name)).elim
+    obtain ⟨t, t', r, e3, e4, h3⟩ := (setFinalizer_ghost mem false (withFreed_ghost (withW_ghost h2 (free_ghost h1 mem.owner.wref)) mem.name)).elim
     simp only at e3 e4
     simp only [e3, e4]
     cases r with
@@ -265,7 +265,7 @@ theorem reconcilePhaseCtl_ghost (cfg : Cfg) (setKind ns name : String) {s s' : S
         exact RelS.mk' (withW_ghost h h2) _
       | done =>
         simp only
-        obtain ⟨w2, w2', r, e3, e4, h2⟩ := (setPhaseFinalizer_ghost mem false h1).elim
+        obtain ⟨w2, w2', r, e3, e4, h2⟩ := (setPhaseFinalizer_ghost mem false (free_ghost h1 (phaseOwner mem setKind ns).wref)).elim
         simp only [e3, e4]
         cases r with
         | error e => exact RelS.mk' (withFreed_ghost (withW_ghost h h2) _) _
